@@ -59,6 +59,9 @@ SIMW = {
     "65816": [("sta 0x%04x", "set a=0x%x")],
     "z80": [("ld (0x%04x), a", "set a=0x%x")],
     "stm8": [("ld $%04x, A", "set a=0x%x")],
+    # register-indirect word stores: the address goes into a register with set, the instruction text has no address
+    "riscv": [("sw t0, 8(t1)", "set t0=0x%x", "set t1=0x%x", 8, 4)],
+    "mips": [("sw $t0, 8($t1)", "set $t0=0x%x", "set $t1=0x%x", 8, 4)],
 }
 
 
@@ -258,6 +261,8 @@ class C19(Engine):
                 elif cpu in SIMW and rng.chance(1, 3):
                     # what the simulator stores is what print shows afterwards - also at the top and bottom of the 64 KiB space
                     d = rng.pick([0xffff, 0xfffe, 0xff00, 0x240 + rng.below(64), 0x3c0 + rng.below(64)])
+                    if cpu in NO_SET_PC:
+                        d = rng.pick([0xfffc, 0xff00, 0x240 + 4 * rng.below(16), 0x3c0 + 4 * rng.below(16)]) + (a & 0xffff0000)
                     plan["ops"].append({"op": "simstep", "addr": a, "imm": rng.below(256), "store": 0, "daddr": d})
                 elif cpu in SIMF and rng.chance(1, 2):
                     f = rng.below(len(SIMF[cpu]))
@@ -377,7 +382,8 @@ class C19(Engine):
                     # position dependent (symbolic mode): assembled where it will be placed
                     src = ".%s\n.org 0x%x\n  %s\n" % (cpu, op["addr"], SIMF[cpu][op["fetch"]][0] % op["daddr"])
                 if "store" in op:
-                    src = ".%s\n.org 0x%x\n  %s\n" % (cpu, op["addr"], SIMW[cpu][op["store"]][0] % op["daddr"])
+                    tw = SIMW[cpu][op["store"]]
+                    src = ".%s\n.org 0x%x\n  %s\n" % (cpu, op["addr"], tw[0] % op["daddr"] if len(tw) == 2 else tw[0])
                 o = ex.call(build_request(MODE_ASM, ["naken_asm", "-type", "bin", "-o", "i.bin", "a.asm"], {"/sim/w/a.asm": src.encode()}))
                 res.absorb(o)
                 digests.append(o.digest())
@@ -478,16 +484,34 @@ class C19(Engine):
                 if "store" in op:
                     if op["daddr"] <= a + len(blob) + 4 and op["daddr"] + 4 >= a:
                         continue         # (never over its own instruction)
-                    console.append(SIMW[cpu][op["store"]][1] % op["imm"])
+                    tw = SIMW[cpu][op["store"]]
+                    width = 1
+                    if len(tw) > 2:
+                        # register-indirect store on a simulator without a settable pc: the first asm block of the session puts
+                        # the PC on the instruction (as for the load-immediate steps)
+                        if asm_seen[0] or op["daddr"] % 4:
+                            continue
+                        asm_seen[0] = True
+                        width = tw[4]
+                        console.append("asm 0x%x" % a)
+                        expect.append(("none", None))
+                        console.append("  nop")
+                        expect.append(("none", None))
+                        console.append("")
+                        expect.append(("none", None))
+                        console.append(tw[2] % ((op["daddr"] - tw[3]) & 0xffffffff))
+                        expect.append(("none", None))
+                    console.append(tw[1] % op["imm"])
                     expect.append(("none", None))
                     console.append("write 0x%x %s" % (a, " ".join("0x%02x" % b for b in blob)))
                     expect.append(("write", (1, a, list(blob))))
                     touch(a * bpa, len(blob))
-                    touch(op["daddr"] * bpa, 1)
-                    console.append("set pc=0x%x" % a)
-                    expect.append(("none", None))
+                    touch(op["daddr"] * bpa, width)
+                    if len(tw) == 2:
+                        console.append("set pc=0x%x" % a)
+                        expect.append(("none", None))
                     console.append("step")
-                    expect.append(("simstore", (a, op["daddr"], op["imm"], len(blob))))
+                    expect.append(("simstore", (a, op["daddr"], op["imm"], len(blob), width)))
                     continue
                 if "fetch" in op:
                     w = 2 if SIMF[cpu][op["fetch"]][1] == 16 else 1
@@ -769,12 +793,12 @@ class C19(Engine):
                 res.probe("breakrun_checked")
                 res.probe("breakrun_checked:" + cpu)
             elif kind == "simstore":
-                a, d, v, ilen = payload
+                a, d, v, ilen, width = payload
                 m = re.search(r"^.! 0x([0-9a-f]+):", joined, re.M)
                 if m and int(m.group(1), 16) != a:
                     res.viol("simstore:executed-at-other-address:%s" % cpu, cmd=console[idx - 3:idx + 1], shown=m.group(0))
                     continue
-                wr(d * bpa, v)           # observed by the prints that follow and by the final sweep
+                put(d * bpa, v, width)   # observed by the prints that follow and by the final sweep
                 res.probe("simstore_stepped")
                 res.probe("simstore_stepped:" + cpu)
             elif kind == "simstep":
